@@ -1,9 +1,12 @@
 package main
 
 import (
+	"encoding/json"
 	"flag"
 	"fmt"
 	"math/rand"
+	"os"
+	"strings"
 	"unicode/utf8"
 
 	"github.com/cloudspannerecosystem/memefish"
@@ -321,6 +324,63 @@ func init() {
 			return err
 		}
 		fmt.Printf("{\"records\": %d}\n", n)
+		return nil
+	})
+}
+
+// filereplay: spec -> code direction of C20.  FileGen.tla computed line/column/excerpt/prefix; the real
+// token.File must return exactly these.
+func init() {
+	register("filereplay", "replay FileGen.tla behaviours into token.File (C20, spec -> code)", func(args []string) error {
+		fs := flag.NewFlagSet("filereplay", flag.ExitOnError)
+		in := fs.String("in", "", "FileGen output")
+		mism := fs.String("mism", "", "file receiving mismatching cases")
+		fs.Parse(args)
+		type exp struct {
+			Buf    []int `json:"buf"`
+			Pos    int   `json:"pos"`
+			End    int   `json:"end"`
+			Line   int   `json:"line"`
+			Col    int   `json:"col"`
+			Eline  int   `json:"eline"`
+			Ecol   int   `json:"ecol"`
+			Src    []int `json:"src"`
+			Prefix []int `json:"prefix"`
+		}
+		var mf *os.File
+		nm := 0
+		n, err := readTLCLines(*in, func(raw []byte) error {
+			var e exp
+			if err := json.Unmarshal(raw, &e); err != nil {
+				return err
+			}
+			r := posOne(&token.File{FilePath: "f", Buffer: bytesOf(e.Buf)}, e.Pos, e.End)
+			src := bytesOf(r.Src)
+			if r.Line != r.Eline {
+				src = strings.TrimPrefix(src, "\n") // tolerated leading newline of a multi-line excerpt
+			}
+			ok := !r.Pan && r.Line == e.Line && r.Col == e.Col && r.Eline == e.Eline && r.Ecol == e.Ecol &&
+				src == bytesOf(e.Src) && bytesOf(r.Str) == bytesOf(e.Prefix) && r.Rline == e.Line && r.Rcol == e.Col
+			if !ok {
+				if mf == nil {
+					var err error
+					if mf, err = os.Create(*mism); err != nil {
+						return err
+					}
+				}
+				b, _ := json.Marshal(r)
+				mf.Write(append(b, '\n'))
+				nm++
+			}
+			return nil
+		})
+		if mf != nil {
+			mf.Close()
+		}
+		if err != nil {
+			return err
+		}
+		fmt.Printf("{\"behaviours\": %d, \"mismatches\": %d}\n", n, nm)
 		return nil
 	})
 }
